@@ -160,10 +160,10 @@ enum AOp {
 fn keys_universe(thorough: bool) -> Vec<&'static str> {
     // "FFEE.PACK": same letters in another case (a suffix match must be exact);
     // "ffee.pack.old": the suffix inside the name, not at its end (must not be listed under ".pack")
-    // "ab": a key exactly as long as the directory backend's shard prefix (thorough alphabet; the quick tier covers
-    // it in short_key_pass)
+    // (keys as short as the directory backend's shard prefix are exercised by short_key_pass: one more key would
+    // multiply the abstract state space by the number of values + 1)
     if thorough {
-        vec!["1-aaaa.delta", "1-aabb.delta", "ffee.pack", "ff00.pack", "FFEE.PACK", "ffee.pack.old", "ab"]
+        vec!["1-aaaa.delta", "1-aabb.delta", "ffee.pack", "ff00.pack", "FFEE.PACK", "ffee.pack.old"]
     } else {
         vec!["1-aaaa.delta", "ffee.pack", "FFEE.PACK", "ffee.pack.old"]
     }
@@ -333,8 +333,9 @@ fn adapter_bfs(rep: &mut Report, thorough: bool) {
             if b == Base::SqliteFile && (thorough || w == Wrap::Plain) {
                 backends.push((b, w, Route::UrlRelative));
             }
-            // quick tier: the directory backend under Deflate (a compound scheme); thorough: every persistent combination
-            if persistent(b) && (thorough || (b == Base::Dir && w == Wrap::Flate)) {
+            // quick tier: the directory backend under Deflate (a compound scheme); thorough: the directory backend under every
+            // wrapper and the SQLite file plain
+            if persistent(b) && ((thorough && (b == Base::Dir || w == Wrap::Plain)) || (b == Base::Dir && w == Wrap::Flate)) {
                 backends.push((b, w, Route::UrlHost));
             }
         }
